@@ -139,9 +139,13 @@ def equalsPinned (parse : Str → Option URL) (i w : Str) (cs : Bool) : Bool :=
     | some u, some v => slowEqPinned cs u v
     | _, _ => foldEq i w
 
-/-- `IRIs.Contains(r)`: some member `iri` with `r.Equals(iri, false)`. -/
+/-- `IsNil` on an IRI: the empty IRI and the nil IRI `-` are the nil item -/
+def isNilIRI (r : Str) : Bool := r.isEmpty || r == [45]
+
+/-- `IRIs.Contains(r)`: the nil item is a member of nothing (`IsNil(r)` answers first); otherwise some member
+`iri` with `r.Equals(iri, false)`. -/
 def irisContains (parse : Str → Option URL) (l : List Str) (r : Str) : Bool :=
-  l.any (fun iri => equals parse r iri false)
+  !isNilIRI r && l.any (fun iri => equals parse r iri false)
 
 /-! ### a concrete splitter for the URL grammar used by the correspondence
 
